@@ -25,6 +25,7 @@ import (
 	"github.com/regclient/regclient"
 	"github.com/regclient/regclient/pkg/archive"
 	"github.com/regclient/regclient/scheme/ocidir"
+	"github.com/regclient/regclient/types"
 	"github.com/regclient/regclient/types/blob"
 	"github.com/regclient/regclient/types/ref"
 	"github.com/regclient/regclient/zz_verif/evid"
@@ -58,6 +59,24 @@ type c20Run struct {
 }
 
 func (r *c20Run) label(l string) { r.labels = append(r.labels, l) }
+
+// spell renders a designated directory the way the case's path form says the
+// user wrote it (relative forms are relative to the working directory, which
+// c20Check has set to G).
+func (r *c20Run) spell(abs string) string {
+	switch r.c.PathForm {
+	case "slash":
+		return abs + "/"
+	case "rel", "reldot":
+		rel, err := filepath.Rel(r.g.G, abs)
+		c20Must(err)
+		if r.c.PathForm == "reldot" {
+			return "./" + rel
+		}
+		return rel
+	}
+	return abs
+}
 
 // fail records a violation; known findings are counted and the run goes on.
 func (r *c20Run) fail(v *evid.Violation) {
@@ -137,14 +156,21 @@ func (r *c20Run) runExtract() {
 			ents[i] = e
 		}
 		data = c20BuildTar(ents, x.Gzip)
+		if x.Zstd && !x.Gzip {
+			data = c20Zstd(data)
+		}
+	}
+	var topts []archive.TarOpts
+	if x.TarOpt {
+		topts = append(topts, archive.TarCompressGzip)
 	}
 	r.begin()
-	err, pan := c20Call(func() error { return archive.Extract(context.Background(), dst, bytes.NewReader(data)) })
+	err, pan := c20Call(func() error { return archive.Extract(context.Background(), r.spell(dst), bytes.NewReader(data), topts...) })
 	r.outcome("archive-extract", err, pan)
 	if _, e := os.Lstat(filepath.Join(dst, "ctl")); e == nil {
 		r.label("extract:control-file-written")
 	}
-	r.step("archive-extract", fmt.Sprintf("archive.Extract(%q, tar%s) err=%v", dst, c20EntNames(x.Ents), err))
+	r.step("archive-extract", fmt.Sprintf("archive.Extract(%q, tar%s) err=%v", r.spell(dst), c20EntNames(x.Ents), err))
 	if x.ReadFile != "" {
 		name := g.expand(x.ReadFile)
 		var got []byte
@@ -215,7 +241,10 @@ func (r *c20Run) runLayout() {
 	l := r.c.Lay
 	g := r.g
 	w := c20BuildWorld(g, l.Spec)
-	w.materialise(g.Out)
+	w.cancelled = r.c.Ctx == "cancelled"
+	if !l.Empty {
+		w.materialise(g.Out)
+	}
 	rc := regclient.New()
 	var o *ocidir.OCIDir
 	if l.NoGC {
@@ -225,7 +254,7 @@ func (r *c20Run) runLayout() {
 	}
 	r.begin()
 	for i, op := range l.Ops {
-		res := w.runOp(op, g.Out, rc, o)
+		res := w.runOp(op, r.spell(g.Out), rc, o)
 		name := strings.ReplaceAll(op.Op, ".", "-")
 		if op.Op == "manifest.delete" && op.Man != "" {
 			name += "-withmanifest"
@@ -287,6 +316,7 @@ func (r *c20Run) runCopy() {
 	c := r.c.Copy
 	g := r.g
 	w := c20BuildWorld(g, c.Spec)
+	w.cancelled = r.c.Ctx == "cancelled"
 	reg := c20Registry()
 	rc := regclient.New(reg.rcOpts()...)
 	var src ref.Ref
@@ -294,9 +324,9 @@ func (r *c20Run) runCopy() {
 	if c.Src == "ocidir" {
 		w.materialise(g.Src)
 		g.Allowed = append(g.Allowed, g.Src)
-		src, err = w.mkRef(g.Src, c.SrcRef)
+		src, err = w.mkRef(r.spell(g.Src), c.SrcRef)
 	} else {
-		repo := reg.add(w, c.AnyBlob)
+		repo := reg.addRepo(&c20Repo{w: w, anyBlob: c.AnyBlob, hdrDig: g.expand(c.HdrDig)})
 		defer reg.remove(repo)
 		src, err = w.mkRegRef(reg.host, repo, c.SrcRef)
 	}
@@ -308,7 +338,7 @@ func (r *c20Run) runCopy() {
 	if c.DstPop {
 		c20BuildWorld(g, c20Layout{}).materialise(g.Out)
 	}
-	dst, err := w.mkRef(g.Out, c.DstRef)
+	dst, err := w.mkRef(r.spell(g.Out), c.DstRef)
 	if err != nil {
 		r.label("op-skipped:copy-dst-ref")
 		r.begin()
@@ -318,8 +348,9 @@ func (r *c20Run) runCopy() {
 	detail := fmt.Sprintf("%s src=%s{tag=%q digest=%q} dst{how=%s tag=%q digest=%q} desc=%q", c.Mode, c.Src, src.Tag, src.Digest, c.DstRef.How, dst.Tag, dst.Digest, w.digest(c.Desc.Dig))
 	r.begin()
 	var outs [][]byte
-	ctx, cancel := c20Ctx()
+	ctx, cancel := w.ctx()
 	defer cancel()
+	cb := func(kind types.CallbackKind, instance string, state types.CallbackState, cur, total int64) {}
 	err, pan := c20Call(func() error {
 		switch c.Mode {
 		case "copy":
@@ -333,16 +364,35 @@ func (r *c20Run) runCopy() {
 			if c.Force {
 				opts = append(opts, regclient.ImageWithForceRecursive())
 			}
+			if c.Platforms {
+				opts = append(opts, regclient.ImageWithPlatforms([]string{"linux/amd64"}))
+			}
+			if c.Child {
+				opts = append(opts, regclient.ImageWithChild())
+			}
+			if c.Fast {
+				opts = append(opts, regclient.ImageWithFastCheck())
+			}
+			if c.Callback {
+				opts = append(opts, regclient.ImageWithCallback(cb))
+			}
 			return rc.ImageCopy(ctx, src, dst, opts...)
 		case "export-import":
 			var buf bytes.Buffer
-			if err := rc.ImageExport(ctx, src, &buf); err != nil {
+			var eo []regclient.ImageOpts
+			if c.ExportGz {
+				eo = append(eo, regclient.ImageWithExportCompress())
+			}
+			if err := c20Export(rc, ctx, src, &buf, eo); err != nil {
 				outs = append(outs, buf.Bytes())
 				return err
 			}
 			outs = append(outs, buf.Bytes())
 			return rc.ImageImport(ctx, dst, bytes.NewReader(buf.Bytes()))
 		default:
+			if c.Callback {
+				return rc.BlobCopy(ctx, src, dst, w.mkDesc(c.Desc), regclient.BlobWithCallback(cb))
+			}
 			return rc.BlobCopy(ctx, src, dst, w.mkDesc(c.Desc))
 		}
 	})
@@ -357,6 +407,7 @@ func (r *c20Run) runImport() {
 	im := r.c.Import
 	g := r.g
 	w := c20BuildWorld(g, im.Spec)
+	w.cancelled = r.c.Ctx == "cancelled"
 	var ents []c20TarEnt
 	extra := make([]c20TarEnt, len(im.Extra))
 	for i, e := range im.Extra {
@@ -394,16 +445,25 @@ func (r *c20Run) runImport() {
 		if len(w.blobs[d]) == 0 {
 			continue
 		}
-		add("blobs/sha256/"+strings.TrimPrefix(d, "sha256:"), w.blobs[d])
+		add(filepath.ToSlash(c20BlobPath(d)), w.blobs[d])
+	}
+	if im.Reverse {
+		// blobs first, index.json / oci-layout last: the importer has to rescan the archive
+		for i, j := 0, len(ents)-1; i < j; i, j = i+1, j-1 {
+			ents[i], ents[j] = ents[j], ents[i]
+		}
 	}
 	if !im.ExtraFirst {
 		ents = append(ents, extra...)
 	}
 	data := c20BuildTar(ents, im.Gzip)
+	if im.Zstd && !im.Gzip {
+		data = c20Zstd(data)
+	}
 	if im.DstPop {
 		w.materialise(g.Out)
 	}
-	dst, err := w.mkRef(g.Out, im.Ref)
+	dst, err := w.mkRef(r.spell(g.Out), im.Ref)
 	if err != nil {
 		r.label("op-skipped:import-ref")
 		r.begin()
@@ -415,7 +475,7 @@ func (r *c20Run) runImport() {
 		opts = append(opts, regclient.ImageWithImportName(g.expand(im.ImportName)))
 	}
 	r.begin()
-	ctx, cancel := c20Ctx()
+	ctx, cancel := w.ctx()
 	defer cancel()
 	err, pan := c20Call(func() error { return rc.ImageImport(ctx, dst, bytes.NewReader(data), opts...) })
 	r.outcome("image-import", err, pan)
@@ -438,22 +498,34 @@ func (r *c20Run) runArtifact() {
 	if a.Src == "ocidir" {
 		w.materialise(g.Src)
 		g.Allowed = append(g.Allowed, g.Src)
-		refStr = "ocidir://" + g.Src + ":" + a.Tag
+		refStr = "ocidir://" + r.spell(g.Src) + ":" + a.Tag
+		if r.c.PathForm == "slash" {
+			refStr = "ocidir://" + g.Src + ":" + a.Tag // "dir/:tag" is not a reference
+		}
 	} else {
 		reg := c20Registry()
-		repo := reg.add(w, true)
+		repo := reg.addRepo(&c20Repo{w: w, anyBlob: true, anyMan: a.ArtMan + 1, hdrDig: g.expand(a.HdrDig)})
 		defer reg.remove(repo)
 		refStr = reg.host + "/" + repo + ":" + a.Tag
 		rcOpts = reg.rcOpts()
 	}
-	args := []string{"artifact", "get", refStr, "--output", g.Out}
+	args := []string{"artifact", "get", refStr, "--output", r.spell(g.Out)}
+	if a.Subject {
+		args = []string{"artifact", "get", "--subject", refStr, "--output", r.spell(g.Out)}
+	}
 	name := "artifact-get"
 	if a.StripDirs {
 		args = append(args, "--strip-dirs")
 		name += "-stripdirs"
 	}
 	if a.ConfigFile {
-		args = append(args, "--config-file", filepath.Join(g.Out, "cfg.json"))
+		args = append(args, "--config-file", filepath.Join(r.spell(g.Out), "cfg.json"))
+	}
+	if a.Platform {
+		args = append(args, "--platform", "linux/amd64")
+	}
+	if a.FileMT {
+		args = append(args, "--file-media-type", c20MTLayer)
 	}
 	if a.Filter != "" {
 		args = append(args, "--file", g.expand(a.Filter))
@@ -472,7 +544,7 @@ func (r *c20Run) runArtifact() {
 	})
 	r.outcome(name, err, pan)
 	var titles []string
-	for _, l := range a.Spec.Mans[0].Layers {
+	for _, l := range a.Spec.Mans[a.ArtMan].Layers {
 		t := g.expand(l.Title)
 		if len(t) > 80 {
 			t = t[:80] + "…"
@@ -521,6 +593,15 @@ func c20Check(c c20Case, ev *evid.Collector) (v *evid.Violation) {
 	g := c20NewGuard(c.PrePop)
 	defer g.Close()
 	r := &c20Run{c: c, g: g, ev: ev}
+	if c.PathForm == "rel" || c.PathForm == "reldot" {
+		// relative spellings are relative to the working directory
+		if cwd, err := os.Getwd(); err == nil {
+			c20Must(os.Chdir(g.G))
+			defer func() { _ = os.Chdir(cwd) }()
+		} else {
+			panic(c20Infra{err})
+		}
+	}
 	defer func() {
 		// evidence: exactly one Case per evaluation
 		nt := false
@@ -588,7 +669,7 @@ func c20Check(c c20Case, ev *evid.Collector) (v *evid.Violation) {
 		}
 		r.runImport()
 	case "artifact":
-		if c.Art == nil || len(c.Art.Spec.Mans) == 0 {
+		if c.Art == nil || len(c.Art.Spec.Mans) == 0 || c.Art.ArtMan < 0 || c.Art.ArtMan >= len(c.Art.Spec.Mans) {
 			return nil
 		}
 		r.runArtifact()
@@ -723,6 +804,12 @@ func TestVerifSanity(t *testing.T) {
 		g := c20NewGuard(c.PrePop)
 		defer g.Close()
 		r := &c20Run{c: c, g: g, ev: ev}
+		if c.PathForm == "rel" || c.PathForm == "reldot" {
+			cwd, err := os.Getwd()
+			c20Must(err)
+			c20Must(os.Chdir(g.G))
+			defer func() { _ = os.Chdir(cwd) }()
+		}
 		switch c.Surface {
 		case "extract":
 			r.runExtract()
@@ -774,6 +861,94 @@ func TestVerifSanity(t *testing.T) {
 		[]string{"index.json", "blobs/sha256/" + strings.TrimPrefix(c20Dig(c20BlobL2), "sha256:")}, ":ok")
 	run(c20Case{Surface: "import", Import: &c20Import{Spec: imgSpec, OmitLayout: true, OmitIndex: true, Docker: &c20Docker{Config: "cfg.json", Layers: []string{"layer.tar"}, RepoTags: []string{"x:latest"}},
 		Ref: c20RefSpec{How: "settag", Tag: "v1"}}}, []string{"index.json"}, ":ok")
+	// 3b. the same for the dimensions added by the generator-domain audit
+	run(c20Case{Surface: "extract", PathForm: "rel", Extract: &c20Extract{Zstd: true, TarOpt: true, Ents: []c20TarEnt{{Name: "ctl", Type: "reg", Size: 513},
+		{Name: "ignored", Link: "../victim", Type: "xglobal"}, {Name: "big", Type: "reg", Size: 32769}}}}, []string{"ctl", "big"}, ":ok")
+	run(c20Case{Surface: "extract", PathForm: "slash", Extract: &c20Extract{Sub: "dir", Ents: []c20TarEnt{{Name: "ctl", Type: "reg", Size: 1}}}}, []string{"dir/ctl"}, ":ok")
+	for _, src := range []string{"reg", "ocidir"} {
+		for _, api := range []bool{false, true} {
+			for _, form := range []string{"", "reldot"} {
+				subjSpec := c20Layout{
+					Algo:  map[bool]string{false: "", true: "sha512"}[api],
+					Blobs: []c20Blob{{Data: "hello"}, {Tar: []c20TarEnt{{Name: "inner.txt", Type: "reg", Size: 5}}, Zstd: true}},
+					Mans: []c20Man{{Kind: "image", Config: c20Desc{Dig: "$C"}, Layers: []c20Desc{{Dig: "$L1"}}},
+						{Kind: "artifact", Config: c20Desc{Dig: "$E"}, Subject: &c20Desc{Dig: "#0"}, Layers: []c20Desc{{Dig: "$B0", Title: "sub/file.txt", Inline: true}, {Dig: "$B1", Title: "unp", Unpack: true}}}},
+					Index:     []c20Desc{{Dig: "#0", Tag: "t"}},
+					Referrers: &c20Referrers{Subject: "#0", API: api, List: []c20Desc{{Dig: "#1"}}},
+				}
+				run(c20Case{Surface: "artifact", PathForm: form, Art: &c20Art{Spec: subjSpec, Src: src, Tag: "t", Subject: true, ArtMan: 1}}, []string{"sub/file.txt", "unp/inner.txt"}, ":ok")
+			}
+		}
+	}
+	ociArtSpec := c20Layout{
+		Blobs: []c20Blob{{Data: "hello"}},
+		Mans:  []c20Man{{Kind: "ociartifact", Layers: []c20Desc{{Dig: "$B0", Title: "oa.txt"}}}, {Kind: "index", Children: []c20Desc{{Dig: "#0"}}}},
+		Index: []c20Desc{{Dig: "#1", Tag: "t"}},
+	}
+	run(c20Case{Surface: "artifact", Art: &c20Art{Spec: ociArtSpec, Src: "reg", Tag: "t", Platform: true, FileMT: true}}, []string{"oa.txt"}, ":ok")
+	img512 := c20Layout{
+		Algo: "sha512",
+		Mans: []c20Man{{Kind: "image", Config: c20Desc{Dig: "$C"}, Layers: []c20Desc{{Dig: "$L1", Inline: true}, {Dig: "$L2"}}},
+			{Kind: "artifact", Config: c20Desc{Dig: "$E"}, Subject: &c20Desc{Dig: "#0"}, Layers: []c20Desc{{Dig: "$E"}}},
+			{Kind: "index", Children: []c20Desc{{Dig: "#0"}}}},
+		Index:     []c20Desc{{Dig: "#2", Tag: "v1"}},
+		Referrers: &c20Referrers{Subject: "#2", API: true, List: []c20Desc{{Dig: "#1"}}},
+	}
+	l1of512 := filepath.ToSlash(c20BlobPath(c20Dig512(c20BlobL1)))
+	for _, src := range []string{"ocidir", "reg"} {
+		for _, form := range []string{"slash", "rel"} {
+			run(c20Case{Surface: "copy", PathForm: form, Copy: &c20Copy{Spec: img512, Src: src, Mode: "copy", Refs: true, Platforms: true, Callback: true, Fast: true,
+				SrcRef: c20RefSpec{How: "settag", Tag: "v1"}, DstRef: c20RefSpec{How: "settag", Tag: "copied"}}}, []string{"index.json", l1of512}, ":ok")
+			run(c20Case{Surface: "copy", PathForm: form, Copy: &c20Copy{Spec: img512, Src: src, Mode: "export-import", ExportGz: true,
+				SrcRef: c20RefSpec{How: "settag", Tag: "v1"}, DstRef: c20RefSpec{How: "settag", Tag: "copied"}}}, []string{"index.json", l1of512}, ":ok")
+		}
+	}
+	run(c20Case{Surface: "import", PathForm: "reldot", Import: &c20Import{Spec: img512, Reverse: true, Zstd: true, Ref: c20RefSpec{How: "settag", Tag: "v1"}}},
+		[]string{"index.json", l1of512}, ":ok")
+	{
+		// a cancelled context is really handed over: a copy from the registry fails under it
+		// (ocidir's own operations mostly ignore the context and succeed)
+		c := c20Case{Surface: "copy", Ctx: "cancelled", Copy: &c20Copy{Spec: imgSpec, Src: "reg", Mode: "copy",
+			SrcRef: c20RefSpec{How: "settag", Tag: "v1"}, DstRef: c20RefSpec{How: "settag", Tag: "copied"}}}
+		g := c20NewGuard(false)
+		r := &c20Run{c: c, g: g, ev: ev}
+		r.runCopy()
+		if r.viol != nil || !strings.Contains(strings.Join(r.labels, " "), "image-copy-from-reg:error") {
+			t.Errorf("sanity cancelled context: labels %v viol %v", r.labels, r.viol)
+		}
+		g.Close()
+	}
+	for _, form := range []string{"slash", "reldot"} {
+		c := c20Case{Surface: "layout", PathForm: form, Lay: &c20Lay{Spec: img512, Empty: form == "reldot", Ops: []c20Op{
+			{Op: "blob.put", Via: "oci", Body: "c20-put-body", Reader: "blob", SizeHow: "exact"},
+			{Op: "blob.put", Via: "rc", Body: "c20-put-body-two", Reader: "plain", Prefer512: true},
+			{Op: "blob.put", Via: "rc", Body: "c20-put-body-3", Reader: "blob-nodesc"},
+			{Op: "manifest.put", Via: "rc", Man: "#0", ManHow: "raw", Ref: c20RefSpec{How: "settag", Tag: "again"}},
+			{Op: "manifest.get", Via: "rc", Ref: c20RefSpec{How: "settag", Tag: "again"}, Platform: true},
+			{Op: "manifest.head", Via: "rc", Ref: c20RefSpec{How: "settag", Tag: "again"}, Platform: true, Flag: true},
+			{Op: "referrer.list", Via: "rc", Ref: c20RefSpec{How: "settag", Tag: "again"}, Flag: true, Tag2: "preference"},
+			{Op: "close", Via: "rc"},
+		}}}
+		g := c20NewGuard(false)
+		r := &c20Run{c: c, g: g, ev: ev}
+		cwd, err := os.Getwd()
+		c20Must(err)
+		if form == "reldot" {
+			c20Must(os.Chdir(g.G))
+		}
+		r.runLayout()
+		_ = os.Chdir(cwd)
+		if r.viol != nil {
+			t.Errorf("sanity layout(%s): benign ops reported %v", form, r.viol)
+		}
+		for _, l := range r.labels {
+			if strings.HasSuffix(l, ":error") || strings.HasSuffix(l, ":panic") || strings.HasPrefix(l, "op-skipped") {
+				t.Errorf("sanity layout(%s): a benign operation did not succeed: labels %v", form, r.labels)
+				break
+			}
+		}
+		g.Close()
+	}
 	var ops []c20Op
 	for _, via := range []string{"rc", "oci"} {
 		ops = append(ops,
@@ -881,4 +1056,8 @@ func FuzzVerifExtract(f *testing.F) {
 			t.Fatalf("%v", v)
 		}
 	})
+}
+
+func c20Export(rc *regclient.RegClient, ctx context.Context, src ref.Ref, buf *bytes.Buffer, opts []regclient.ImageOpts) error {
+	return rc.ImageExport(ctx, src, buf, opts...)
 }
